@@ -12,8 +12,9 @@ from fractions import Fraction
 import numpy as np
 import z3
 
+from symx import fp
 from symx.core import SReal, explore, mval, rv, solve
-from symx.ext_c10 import free_choice, free_flag
+from symx.ext_c10 import free_choice, free_flag, hybrid_time, sym_julian_date
 from symx.runner import Ob
 from symx.stubs import shadow
 
@@ -27,9 +28,15 @@ TECHNIQUE = ("the real Scenario.__init__/propagateTo/stepForward/saveDatabaseOut
              "every completion order are solver variables; on every feasible path z3 proves (unsat) that every truth agent's trajectory, propagation submissions and TruthEphemeris "
              "rows are the same terms as in a solo truth-only run of that agent, that truth state changes only while its own propagation result is applied and is final before any "
              "estimate/tasking job is submitted, and that no estimate/tasking code path writes a truth agent.  Split runs: the real propagateTo on symbolic IEEE doubles (symx.fp) "
-             "requests n(a) + n(a->b) = n(b) steps for every on-grid split point")
+             "requests n(a) + n(a->b) = n(b) steps for every on-grid split point.  Off-grid stops: in the frame-split*-offgrid families the Julian date handed to every intermediate "
+             "propagateTo call is a symbolic IEEE double anywhere within 0.45 s of the step boundary it rounds to and the Julian date of the maneuver's event row is a symbolic double "
+             "anywhere in the run (real JulianDate/ScenarioTime method bodies on symbolic doubles next to the concrete clock, symx.ext_c10.hybrid_time); the same equalities with the "
+             "single-call solo run are proved on every path.  Output cadence: (i) family steps3-cadence runs the real propagateTo/stepForward with output steps that are not multiples of "
+             "the physics step; (ii) cadence-config runs the Python bodies of TimeConfig's own validators, ScenarioClock.fromConfig and Scenario.physics_time_step with output_step_sec "
+             "= two solver integers and proves that validated physics step, start/stop, clock step and time span do not depend on them")
 FLOAT_SEMANTICS = ("frame obligations: exact (payloads are opaque reals / uninterpreted functions, times are concrete doubles handled by the real code); "
-                   "split-run obligations: IEEE-754 double, relaxed rounding (sound over-approximation)")
+                   "split-run obligations: IEEE-754 double, relaxed rounding (sound over-approximation); off-grid families: the stop and event Julian dates are IEEE-754 doubles in "
+                   "bit-exact semantics (symx.fp exact mode; models are doubles and are replayed bit for bit); cadence-config: exact integers")
 ENCODED = [
     "resonaate.scenario.scenario:Scenario.__init__", "resonaate.scenario.scenario:Scenario.propagateTo", "resonaate.scenario.scenario:Scenario.stepForward",
     "resonaate.scenario.scenario:Scenario.saveDatabaseOutput", "resonaate.scenario.clock:ScenarioClock.ticToc",
@@ -45,6 +52,10 @@ ENCODED = [
     "resonaate.agents.sensing_agent:SensingAgent.__init__", "resonaate.agents.sensing_agent:SensingAgent.eci_state", "resonaate.agents.sensing_agent:SensingAgent.updateInfo",
     "resonaate.agents.sensing_agent:SensingAgent.getCurrentEphemeris", "resonaate.agents.estimate_agent:EstimateAgent._finalizeUpdate",
     "resonaate.data.events:getRelevantEvents", "resonaate.data.events:handleRelevantEvents", "resonaate.data.events.scheduled_impulse:ScheduledImpulseEvent.handleEvent",
+    "resonaate.physics.time.stardate:JulianDate.convertToScenarioTime", "resonaate.physics.time.stardate:JulianDate.__sub__", "resonaate.physics.time.stardate:ScenarioTime.__sub__",
+    "resonaate.physics.time.stardate:ScenarioTime.__lt__", "resonaate.physics.maths:fpe_equals",
+    "resonaate.scenario.config.time_config:TimeConfig.stop_after_start", "resonaate.scenario.config.time_config:TimeConfig.ignore_tzinfo",
+    "resonaate.scenario.clock:ScenarioClock.fromConfig", "resonaate.scenario.scenario:Scenario.physics_time_step",
 ]
 BOUNDS = {
     "agents": "targets 11 (always) and 12, sensors 21 and 22; which of 12/21/22 exist is a solver variable per obligation family (<= 4 truth agents; <= 3 in multi-step families)",
@@ -55,6 +66,13 @@ BOUNDS = {
                      "one impulsive ECI maneuver event whose owner, step and planned flag are chosen by the solver; one station keeper token on target 11",
     "payloads": "initial states (disjoint bands per agent and component), event thrust, predicted/updated estimates, boresights: symbolic reals in bands disjoint between kinds of payload",
     "result ids (family step1-ids)": "estimate_id / target_id / agent_id carried by reward, task-execution, update and propagation results: any id of the same kind",
+    "off-grid stops (families split2-offgrid, split3-offgrid; thorough: split2-offgrid-sensor)": "every intermediate propagateTo target = any double within 0.45 s of the step boundary it "
+                        "rounds to; the maneuver's Julian date = any double from the start epoch to one step past the end; 2 steps split 1+1 and 3 steps in every composition (target alone, "
+                        "truth-only, planned flag symbolic in the 3-step family); thorough: 2 steps with a sensor, truth_only and output cadence symbolic, every completion order; "
+                        "start 2021-03-30T16:00:00, dt = 60 s; bit-exact double semantics (no rounding occurs in these terms: every operation is exact on the 2^-31 d grid)",
+    "output cadence, stepping (family steps3-cadence)": "output step / physics step in {1, 2, 3, 3/2, 3/4, 5/2}; 3 steps in every composition, maneuver in any step; target alone, truth-only",
+    "output cadence, configuration (cadence-config)": "physics_step_sec in {60, 300} (quick) + {2, 7, 45, 3080} (thorough); output_step_sec of the two configurations: any integers in 2..86400 "
+                                                      "(Field(gt=1) is the documented precondition); start/stop 2021-03-30T16:00/17:00",
     "split arithmetic": "start date 1901..2099, whole-second targets up to 30 days, dt in {60, 300} (quick) + {1, 7, 3080} (thorough), split point any positive multiple of dt, both legs >= dt; "
                         "loops unrolled for <= 3 steps in total",
 }
@@ -66,7 +84,11 @@ OUTSIDE = [
     "whether an event reaches its owner at the right step at all (C01/C15): the relation proved here is between runs, a defect that drops an event in every configuration alike is invisible to it",
     "more than 4 truth agents / 3 steps; decentralised or multiple tasking engines; decisions other than all-visible; debugging.ThreeSigmaObs",
     "noise/filter/reward settings enter only as opaque payloads: that they cannot reach truth is shown by the frame conditions, not by running different filters",
-    "split runs at off-grid or sub-second instants (numpy.around rounds half to even: a target of 2.5 s and one of 1.5 s after a 1 s leg request 2 and 1+2 steps); first leg shorter than one step (ValueError by design)",
+    "split runs whose intermediate stop is farther than 0.45 s from a step boundary (numpy.around rounds half to even: a target of 2.5 s and one of 1.5 s after a 1 s leg request 2 and 1+2 "
+    "steps); off-grid stops with a symbolic start date or dt other than 60 s; first leg shorter than one step (ValueError by design)",
+    "configuration validators other than TimeConfig's own (ScenarioConfig-level cross-field validators), pydantic wrap / v1-style validators (reported as harness error, never skipped); "
+    "physics steps other than the listed ones; what the output cadence does to *estimate* or observation rows",
+    "finite burns / finite maneuvers starting in the gap between an off-grid stop and its boundary (same event query; their handling is C15)",
 ]
 ASSUMPTIONS = [
     "ray.wait(refs) returns exactly one finished reference chosen by the solver among the pending ones; ray.get returns the job's result; ray.put is identity",
@@ -82,10 +104,19 @@ ASSUMPTIONS = [
     "a counterexample is replayed in a fresh interpreter on plain floats with the model's choices and payload values and a fixed deterministic float function as the worker",
     "split arithmetic: jd_target - jd_start = D/86400 within 2^-30 days (what C05's jd-accuracy obligations establish); stepForward replaced by a stub that ticks the real clock; after a leg "
     "that requested n steps the clock reads n*dt (integer-valued doubles, exact; the unrolled split-loop obligation runs the real loop)",
+    "split arithmetic worlds: the Scenario (no agents, null database) is built by the real constructor; the clock's calendar start is any whole second of 1901..2099 (not tied to js) and "
+    "datetimeToJulianDate in the scenario module is cut to its weakest contract (some double of the supported range): the step arithmetic may not depend on either",
+    "off-grid families: JulianDate/ScenarioTime are shadowed in stardate, scenario and scheduled_impulse by dispatching classes (symbolic double -> the real class body re-based on SFloat, "
+    "anything else -> the real class), float/around/int by their symx.fp counterparts; datetime/timedelta and every clock epoch stay concrete",
+    "cadence-config: the instance is built with model_construct and the model's own Python validators (from __pydantic_decorators__: before-model, field, after-model, in pydantic's order) are "
+    "called on it; declared Field bounds (gt=1) are assumed of the inputs and enforced, as pydantic does, on what the before-validators hand on; a configuration rejected by a validator (ValueError) has no scenario and is not related to anything; math.gcd, if the module uses "
+    "it, is replaced by an exact symbolic gcd (largest divisor of the concrete argument dividing the symbolic one); ScenarioClock.fromConfig runs on a subclass whose constructor records its arguments",
 ]
 LEVEL_TEXT = ("Bounded symbolic non-interference: for every combination of existing agents, truth-only flag, output cadence, split, event owner and every completion order of every "
               "batch (solver-enumerated paths of the real stepForward), z3 proves that each truth agent's submissions, states and output rows are the same terms as in its solo "
-              "truth-only run and that truth is written only by its own propagation result; the split-run step count is proved over all dates/durations in double semantics.")
+              "truth-only run and that truth is written only by its own propagation result; the split-run step count is proved over all dates/durations in double semantics; "
+              "intermediate stops requested off the step grid (within 0.45 s) with a maneuver at any instant, and output cadences that are not multiples of the physics step, give the same "
+              "trajectories; the validated time configuration and the clock built from it do not depend on output_step_sec (all integers 2..86400).")
 LEVEL_NOTE = ("Reduced claim: frame conditions + ordering + split arithmetic under a deterministic-worker contract; whole-trajectory bit equality through the integrator and Ray "
               "isolation are outside.  Small agent/step bounds.")
 
@@ -107,7 +138,7 @@ class Vals:
     def __init__(self, sym, given=None):
         self.sym = sym
         self.given = given or {"choices": {}, "reals": {}}
-        self.reals, self.choices, self.used = {}, {}, set()
+        self.reals, self.choices, self.used, self.floats = {}, {}, set(), {}
 
     def real(self, name, lo, hi):
         if name in self.reals:
@@ -124,6 +155,19 @@ class Vals:
     def vec(self, name, n, lo, hi):
         xs = [self.real(f"{name}_{i}", lo + i * (hi - lo) / n, lo + (i + 1) * (hi - lo) / n) for i in range(n)]
         return np.array(xs, dtype=object if self.sym else float)
+
+    def jd(self, name, lo, hi, default):
+        """A Julian date that is any double in [lo, hi] (symbolic double, bit-exact semantics); replay: the model's double."""
+        if self.sym:
+            if name not in self.floats:
+                self.floats[name] = fp.fresh_float(name, Fraction(lo), Fraction(hi), -31)  # doubles in [2^21, 2^22): multiples of 2^-31
+            return sym_julian_date(self.floats[name])
+        from resonaate.physics.time.stardate import JulianDate
+
+        v = (self.given.get("floats") or {}).get(name)
+        v = float(v) if v is not None and lo <= float(v) <= hi else float(default)
+        self.floats[name] = v
+        return JulianDate(v)
 
     def choose(self, name, n):
         """An index 0..n-1 chosen by the solver (forks the exploration)."""
@@ -154,20 +198,37 @@ class Vals:
         ch = {}
         for name, (kind, _v) in self.choices.items():
             ch[name] = mval(model, z3.Int(name)) if kind == "int" else bool(mval(model, z3.Bool(name)))
-        return {"family": family, "choices": ch, "reals": {n: float(mval(model, x.t)) for n, (x, _lo, _hi) in self.reals.items()}}
+        return {"family": family, "choices": ch, "reals": {n: float(mval(model, x.t)) for n, (x, _lo, _hi) in self.reals.items()},
+                "floats": {n: fp.mfloat(model, x) for n, x in self.floats.items()}}
+
+
+def _fp_or(sym_fn, real_fn):
+    return lambda x, *a: sym_fn(x, *a) if isinstance(x, fp.SFloat) else real_fn(x, *a)
+
+
+# rounding helpers a stepping routine may use, on symbolic doubles (shadowed in the scenario module next to around/int; concrete values keep the real function)
+_ROUNDING = {"around": fp.fp_around, "int": fp.fp_int, "round": fp.fp_round, "floor": _fp_or(fp.fp_floor, np.floor), "rint": _fp_or(fp.fp_around, np.rint),
+             "ceil": _fp_or(lambda x: -fp.fp_floor(-x), np.ceil), "float": fp.fp_float}
+
+SYM = (SReal, fp.SFloat)  # symbolic scalars: exact reals (payloads) and symbolic doubles (instants)
 
 
 def _tr(x):
-    if isinstance(x, SReal):
+    if isinstance(x, SYM):
         return x.t
     return rv(x)
+
+
+def _num(x):
+    """A scalar as the oracles see it: symbolic scalars stay symbolic, anything else becomes a plain float."""
+    return x if isinstance(x, SYM) else float(x)
 
 
 def _same(a, b):
     """Equality of two scalars: python bool when decidable syntactically / concretely, else a z3 formula."""
     if a is b:
         return True
-    if isinstance(a, SReal) or isinstance(b, SReal):
+    if isinstance(a, SYM) or isinstance(b, SYM):
         ta, tb = _tr(a), _tr(b)
         if ta.eq(tb):
             return True
@@ -206,7 +267,7 @@ def _ident(a, b):
         if isinstance(x, (tuple, list)):
             if not (isinstance(y, (tuple, list)) and _ident(x, y)):
                 return False
-        elif isinstance(x, SReal) or isinstance(y, SReal):
+        elif isinstance(x, SYM) or isinstance(y, SYM):
             if not _tr(x).eq(_tr(y)):
                 return False
         elif x != y:
@@ -318,7 +379,7 @@ def snap_agent(a):
 
 
 def event_summary(e):
-    return (type(e).__name__, float(e.time), tuple(e.thrust), e.agent_id)
+    return (type(e).__name__, _num(e.time), tuple(e.thrust), e.agent_id)
 
 
 def sub_summary(sub):
@@ -425,7 +486,7 @@ class DBStub:
 
     def __init__(self, trace, event_rows):
         self.trace, self.event_rows = trace, event_rows
-        self.saved = []
+        self.saved, self.saved_at, self.step_ref = [], [], None
 
     @staticmethod
     def _clauses(q):
@@ -459,6 +520,7 @@ class DBStub:
         rows = list(rows)
         self.trace.add("db:save")
         self.saved.append(rows)
+        self.saved_at.append(self.step_ref[0] if self.step_ref else None)
 
 
 # =============================================================================================
@@ -576,8 +638,16 @@ def run_world(V, cfg, tag):
 
     # ---- event rows (real ORM objects, not attached to any session)
     rows = []
+    jd0 = CK.datetimeToJulianDate(T0)
+    total = DT * sum(cfg["legs"])
     for ev in cfg.get("events", []):
-        jd = float(ScenarioTime(ev["at"]).convertToJulianDate(CK.datetimeToJulianDate(T0)))
+        if ev["at"] == "sym":
+            # the event's Julian date is any double from the start epoch to one step past the end of the run
+            lo, hi = float(jd0), float(ScenarioTime(total + DT).convertToJulianDate(jd0))
+            jd = V.jd(f"jd_{ev['name']}", lo, hi, float(ScenarioTime(ev.get("default", total / 2)).convertToJulianDate(jd0)))
+            jd = fp.fp_float(jd)  # the column holds the plain double
+        else:
+            jd = float(ScenarioTime(ev["at"]).convertToJulianDate(jd0))
         thr = V.vec(f"thrust_{ev['name']}", 3, -30.0, -20.0)
         rows.append(ScheduledImpulseEvent(scope="agent_propagation", scope_instance_id=ev["owner"], start_time_jd=jd, end_time_jd=jd, event_type="impulse",
                                           planned=ev["planned"], thrust_vec_0=thr[0], thrust_vec_1=thr[1], thrust_vec_2=thr[2], thrust_frame="eci"))
@@ -585,6 +655,7 @@ def run_world(V, cfg, tag):
     rayst = RayStub(V, trace, tag)
     rayst.fixed = bool(cfg.get("fixed_order"))
     step_no = [0]
+    db.step_ref = step_no
     rec["id_choices"] = []
 
     def some_id(what, own, pool):
@@ -657,8 +728,13 @@ def run_world(V, cfg, tag):
         geopotential=Duck(model="token", degree=0, order=0), perturbations=Duck(third_bodies=[], solar_radiation_pressure=False, general_relativity=False),
         time=Duck(physics_step_sec=ScenarioTime(DT), output_step_sec=ScenarioTime(DT * cfg.get("out_every", 1))),
     )
+    import contextlib
+
+    # symbolic instants (off-grid targets of propagateTo calls, Julian dates of event rows): symbolic doubles through the real time classes
+    symtime = hybrid_time([("resonaate.scenario.scenario", _ROUNDING), ("resonaate.data.events.scheduled_impulse", {})]) \
+        if sym and cfg.get("symtime") else contextlib.nullcontext()
     try:
-        with shadow(CK, getDBConnection=lambda: db), shadow(SC, getDBConnection=lambda: db, ray=rayst, EventStack=EvStack, Logger=lambda *a, **k: logger), \
+        with symtime, shadow(CK, getDBConnection=lambda: db), shadow(SC, getDBConnection=lambda: db, ray=rayst, EventStack=EvStack, Logger=lambda *a, **k: logger), \
                 shadow(EB, getDBConnection=lambda: db), shadow(CE, ray=rayst), shadow(P, ray=rayst), \
                 shadow(TA, eci2ecef=opaque_ecef, ecef2lla=opaque_lla), shadow(SA, eci2ecef=opaque_ecef, ecef2lla=opaque_lla), \
                 shadow(EA, eci2ecef=opaque_ecef, ecef2lla=opaque_lla, filter_map={C["KalmanFilter"]: C["Step"]}), \
@@ -706,9 +782,14 @@ def run_world(V, cfg, tag):
 
             sc.stepForward = step_wrapper
             done = 0
-            for leg in cfg["legs"]:
+            for li, leg in enumerate(cfg["legs"]):
                 done += leg
-                sc.propagateTo(ScenarioTime(DT * done).convertToJulianDate(clock.julian_date_start))
+                target = ScenarioTime(DT * done).convertToJulianDate(clock.julian_date_start)
+                if cfg.get("offgrid") and li < len(cfg["legs"]) - 1:
+                    # an intermediate stop requested up to `offgrid` seconds off the step boundary it rounds to
+                    tol = cfg["offgrid"] / 86400.0
+                    target = V.jd(f"{tag}target_{li}", float(target) - tol, float(target) + tol, float(target))
+                sc.propagateTo(target)
             trace.add("mark", what="run-end")
     except Exception as e:  # noqa: BLE001  (the analysed code raised: reported as a failed check, replayed like any other)
         import traceback
@@ -717,7 +798,7 @@ def run_world(V, cfg, tag):
     finally:
         _ACTIVE[0] = None
         trace.live = False
-    rec["saved"] = db.saved
+    rec["saved"], rec["saved_at"] = db.saved, db.saved_at
     rec["nwait"] = rayst.nwait
     return rec
 
@@ -833,9 +914,14 @@ def frame_checks(ck, rec, name):
     from resonaate.data.ephemeris import TruthEphemeris
 
     out_every = rec["cfg"].get("out_every", 1)
-    expect_saves = 1 + sum(1 for k in range(1, sum(rec["cfg"]["legs"]) + 1) if k % out_every == 0)
-    ck.add(f"{name}: number of output commits {len(rec['saved'])} (expected {expect_saves})", len(rec["saved"]) == expect_saves)
-    ks = [0] + [k for k in range(1, sum(rec["cfg"]["legs"]) + 1) if k % out_every == 0]
+    due = lambda k: (k * DT) % (DT * out_every) == 0  # noqa: E731  (output is written at the step epochs that are multiples of the output step)
+    expect_saves = 1 + sum(1 for k in range(1, sum(rec["cfg"]["legs"]) + 1) if due(k))
+    if float(out_every) == int(out_every):
+        ck.add(f"{name}: number of output commits {len(rec['saved'])} (expected {expect_saves})", len(rec["saved"]) == expect_saves)
+        ks = [0] + [k for k in range(1, sum(rec["cfg"]["legs"]) + 1) if due(k)]
+    else:
+        # an output step that is not a multiple of the physics step: which epochs get written is not C10's business (C09); every commit made must carry the truth of its own epoch
+        ks = list(rec["saved_at"])
     for k, rows in zip(ks, rec["saved"]):
         te = [r for r in rows if isinstance(r, TruthEphemeris)]
         ck.add(f"{name}: output {k}: one truth row per agent", sorted(r.agent_id for r in te) == ids)
@@ -877,7 +963,14 @@ FAMILIES = {
     "steps2-sensors3": dict(steps=2, t12=False, s21=True, s22=True, tso="?", split=True, out=2, event=dict(owners=[11], step=1, planned=True)),
     # two steps truth-only, two targets (+ sensor): whose maneuver it is and when is symbolic
     "steps2-targets": dict(steps=2, t12=True, s21="?", s22=False, tso=True, split=False, out="fixed", event=dict(owners=[11, 12], step="?", planned=True)),
+    # split runs whose intermediate stops are requested off the step grid (any double within 0.45 s of the boundary they round to) and a
+    # maneuver whose Julian date is any double of the run (symbolic doubles): truth-only, target alone
+    "split2-offgrid": dict(steps=2, t12=False, s21=False, s22=False, tso=True, split=True, out="fixed", offgrid=0.45, event=dict(owners=[11], at="sym", step=0, planned=False)),
+    # output cadences that are not multiples of the physics step (90 s, 45 s, 150 s for 60 s steps) next to multiples: truth-only, target alone
+    "steps3-cadence": dict(steps=3, t12=False, s21=False, s22=False, tso=True, split="?", out=(1, 2, 1.5, 0.75, 2.5, 3), event=dict(owners=[11], step="?", planned=False)),
+    "split3-offgrid": dict(steps=3, t12=False, s21=False, s22=False, tso=True, split="?", out="fixed", offgrid=0.45, event=dict(owners=[11], at="sym", step=0, planned="?")),
     # ---- thorough
+    "split2-offgrid-sensor": dict(steps=2, t12=False, s21=True, s22=False, tso="?", split=True, out="?", offgrid=0.45, event=dict(owners=[11], at="sym", step=0, planned="?")),
     "step1-4agents": dict(steps=1, t12="?", s21="?", s22="?", tso="?", split=False, out="fixed", event=None),
     "steps2-sensors-all": dict(steps=2, t12=False, s21=True, s22="?", tso="?", split="?", out="?", event=dict(owners=[11], step="?", planned="?")),
     "steps2-targets-all": dict(steps=2, t12=True, s21="?", s22=False, tso=True, split="?", out="?", event=dict(owners=[11, 12], step="?", planned="?")),
@@ -906,21 +999,28 @@ def family(V, fam):
     cfg["tso"] = _pick(V, F["tso"], "truth_only")
     shapes = SPLITS[F["steps"]]
     cfg["legs"] = shapes[V.choose("split", len(shapes))] if F["split"] == "?" else (shapes[-1] if F["split"] else shapes[0])
-    cfg["out_every"] = 1 + V.choose("output_every", F["steps"]) if F["out"] == "?" else (1 if F["out"] == "fixed" else int(F["out"]))
+    if isinstance(F["out"], (list, tuple)):
+        cfg["out_every"] = F["out"][V.choose("output_every", len(F["out"]))]  # output step / physics step, multiples or not
+    else:
+        cfg["out_every"] = 1 + V.choose("output_every", F["steps"]) if F["out"] == "?" else (1 if F["out"] == "fixed" else int(F["out"]))
     if F["event"]:
         E = F["event"]
         owner = E["owners"][V.choose("event_owner", len(E["owners"]))]
-        st = V.choose("event_step", F["steps"]) if E["step"] == "?" else int(E["step"])
-        cfg["events"] = [{"name": "ev", "owner": owner, "at": DT * st + DT / 2, "planned": _pick(V, E["planned"], "event_planned")}]
+        st = 0 if E.get("at") == "sym" else V.choose("event_step", F["steps"]) if E["step"] == "?" else int(E["step"])
+        at = "sym" if E.get("at") == "sym" else DT * st + DT / 2
+        cfg["events"] = [{"name": "ev", "owner": owner, "at": at, "planned": _pick(V, E["planned"], "event_planned")}]
+    cfg["offgrid"] = F.get("offgrid", 0)
+    cfg["symtime"] = bool(F.get("offgrid")) or any(e["at"] == "sym" for e in cfg["events"])
     full = run_world(V, cfg, "")
     frame_checks(ck, full, "full")
     for i in cfg["targets"] + cfg["sensors"]:
         scfg = dict(cfg)
         scfg.update(targets=[i] if i in cfg["targets"] else [], sensors=[i] if i in cfg["sensors"] else [], tso=True, legs=[sum(cfg["legs"])], out_every=1,
-                    events=[e for e in cfg["events"] if e["owner"] == i], engine=False, ids=False, fixed_order=False)
+                    events=[e for e in cfg["events"] if e["owner"] == i], engine=False, ids=False, fixed_order=False, offgrid=0)
         # the solo run has a single job per batch, hence no choice and no fork: in symbolic mode its terms are the same on every path of this process
         key = (i, scfg["legs"][0], tuple(sorted((e["name"], e["owner"], e["at"], e["planned"]) for e in scfg["events"])), tuple(scfg["keepers"]))
-        if V.sym and key in _SOLO:
+        cache = V.sym and not cfg["symtime"]  # with symbolic instants the solo run forks too: its terms depend on the path
+        if cache and key in _SOLO:
             solo, items, reals = _SOLO[key]
             for n, v in reals.items():
                 V.reals.setdefault(n, v)
@@ -931,11 +1031,23 @@ def family(V, fam):
             frame_checks(sck, solo, f"solo{i}")
             items = sck.items
             solo = {"exc": solo["exc"], "traj": solo["traj"], "subs": solo["subs"]}
-            if V.sym:
+            if cache:
                 _SOLO[key] = (solo, items, {n: v for n, v in V.reals.items() if n not in before or n.startswith(("x_", "thrust_"))})
         ck.items += items
         relate_checks(ck, full, solo, i, "full~solo")
-    info = {"cfg": {k: v for k, v in cfg.items() if k != "_sym"}, "order": [(e["job"], e["pick"]) for e in full["trace"].ev if e["kind"] == "wait" and e["pending"] > 1],
+    regions = {}
+    if V.sym and cfg["symtime"]:
+        # classes of (stop, event) placements that must each lie on some explored path (vacuity guards, checked in o_family)
+        from resonaate.physics.time.stardate import ScenarioTime, datetimeToJulianDate
+
+        edge = rv(Fraction(float(ScenarioTime(DT * cfg["legs"][0]).convertToJulianDate(datetimeToJulianDate(T0)))))
+        je, stop = V.floats.get("jd_ev"), V.floats.get("target_0")
+        if je is not None and stop is not None:
+            regions = {"event between an early stop and the step boundary it rounds to": [stop.t < je.t, je.t < edge],
+                       "event exactly on the boundary, stop requested before it": [stop.t < edge, je.t == edge],
+                       "stop requested after the boundary, event in between": [edge < je.t, je.t <= stop.t],
+                       "stop requested exactly on the boundary": [stop.t == edge]}
+    info = {"regions": regions, "cfg": {k: v for k, v in cfg.items() if k != "_sym"}, "order": [(e["job"], e["pick"]) for e in full["trace"].ev if e["kind"] == "wait" and e["pending"] > 1],
             "ids": tuple(full.get("id_choices", ())), "nwrites": sum(1 for e in full["trace"].ev if e["kind"] == "write"), "kinds": sorted({e["kind"] for e in full["trace"].ev})}
     return ck, info
 
@@ -985,6 +1097,7 @@ def o_family(rep, fam, expect):
         seen["out"].add(c["out_every"])
         seen["ids"].add(info["ids"])
         seen["kinds"] |= set(info["kinds"])
+    wanted, reached = set(), set()
     for n, r in enumerate(res):
         V, ck, info = r.out
         c = info["cfg"]
@@ -993,12 +1106,20 @@ def o_family(rep, fam, expect):
             rep.reachable(f"{fam}#0:assumptions", r.constraints + V.bands())
         elif solve(r.constraints + V.bands(), 20000).status != "sat":
             rep.error(f"{fam}#{n}:vacuous", "path constraints not satisfiable")
+        for what, cons in info.get("regions", {}).items():
+            wanted.add(what)
+            if what not in reached and solve(r.constraints + V.bands() + cons, 20000).status == "sat":
+                reached.add(what)
+                rep.reachable(f"{fam}#{n}:{what}", r.constraints + V.bands() + cons)
         if len(rep.violations) >= MAX_VIOLATIONS:
             rep.note(f"{fam}: stopped after {MAX_VIOLATIONS} replayed violations; {len(res) - n} paths not examined")
             break
         rep.prove(f"{fam}#{n}", ck.goal(), r.constraints + V.bands(), inputs=(lambda m, V=V: V.inputs(m, fam)), replay=replay_family,
                   sample=f"{fam}: agents {c['targets']}+{c['sensors']}, truth_only={c['tso']}, legs={c['legs']}: trajectories/submissions/rows equal the solo truth-only run; truth written only by own propagation result")
     rep.note(f"{fam}: " + ", ".join(f"{k}={len(v)}" for k, v in seen.items() if k != "kinds"))
+    if len(rep.violations) < MAX_VIOLATIONS:
+        for what in sorted(wanted - reached):
+            rep.error(f"reach:{what}", "no explored path contains this placement")
     for k, want in expect.items():
         if k == "kinds":
             missing = set(want) - seen["kinds"]
@@ -1015,20 +1136,34 @@ class _Stop(Exception):
     pass
 
 
-def _bare_scenario(ns, dt, t_now, js):
-    """object.__new__(Scenario) with a real clock; stepForward is a stub that ticks the real clock and records the epoch it is called at."""
-    from resonaate.scenario import clock as CK
+class _NullDB:
+    """Output database of the step-arithmetic worlds: holds nothing, swallows what is saved."""
+
+    def getData(self, query, multi=True):
+        return [] if multi else None
+
+    def insertData(self, *rows):
+        pass
+
+    def bulkSave(self, rows):
+        pass
+
+
+def _constructed_scenario(clock, dt):
+    """A Scenario without agents built by the real constructor (so that it has whatever state the methods under analysis expect);
+    stepForward is then replaced by a stub that ticks the real clock and records the epochs it is called at."""
     from resonaate.scenario import scenario as SC
 
-    clock = object.__new__(CK.ScenarioClock)
-    clock.julian_date_start = js
-    clock.dt_step = ns.ScenarioTime(dt)
-    clock.time = ns.ScenarioTime(t_now)
-    clock.initial_time = ns.ScenarioTime(0)
-    sc = object.__new__(SC.Scenario)
-    sc.clock = clock
-    sc.logger = types.SimpleNamespace(info=lambda *a, **k: None, error=lambda *a, **k: None, debug=lambda *a, **k: None, warning=lambda *a, **k: None)
-    sc.scenario_config = types.SimpleNamespace(propagation=types.SimpleNamespace(truth_simulation_only=True), time=types.SimpleNamespace(physics_step_sec=dt, output_step_sec=dt))
+    nul = lambda *a, **k: None  # noqa: E731
+    logger = types.SimpleNamespace(info=nul, error=nul, debug=nul, warning=nul)
+    conf = Duck(noise=Duck(init_position_std_km=1e-3, init_velocity_std_km_p_sec=1e-6, random_seed=1),
+                propagation=Duck(target_realtime_propagation=True, sensor_realtime_propagation=True, truth_simulation_only=True, propagation_model="token", integration_method="token"),
+                observation=Duck(realtime_observation=True), estimation=Duck(sequential_filter=Duck(dynamics_model="token", save_filter_steps=False)),
+                geopotential=Duck(model="token", degree=0, order=0), perturbations=Duck(third_bodies=[], solar_radiation_pressure=False, general_relativity=False),
+                time=Duck(physics_step_sec=dt, output_step_sec=dt))
+    db = _NullDB()
+    with shadow(SC, getDBConnection=lambda: db, Logger=lambda *a, **k: logger):
+        sc = SC.Scenario(conf, clock, {}, {}, {}, {}, None, logger)
     log = {"calls": [], "count": None, "saves": 0}
 
     def step():
@@ -1043,6 +1178,31 @@ def _bare_scenario(ns, dt, t_now, js):
     return sc, log
 
 
+def _bare_scenario(ns, dt, t_now, js):
+    """A real clock (symbolic start epoch and time) inside a Scenario built by the real constructor."""
+    from resonaate.scenario import clock as CK
+
+    clock = object.__new__(CK.ScenarioClock)
+    clock.julian_date_start = js
+    clock.datetime_start = ns.start_datetime
+    clock.dt_step = ns.ScenarioTime(dt)
+    clock.time = ns.ScenarioTime(t_now)
+    clock.initial_time = ns.ScenarioTime(0)
+    return _constructed_scenario(clock, dt)
+
+
+def _any_julian_date(ns):
+    """datetimeToJulianDate in the scenario module cut to the weakest contract: some double of the supported range (the step arithmetic
+    under analysis may not depend on it; the event windows built from it are the subject of C01 and of the frame-split families)."""
+    n = [0]
+
+    def provider(date_time):
+        n[0] += 1
+        return ns.JulianDate(fp.fresh_float(f"jd_epoch!{n[0]}", Fraction(4830041, 2), Fraction(4976837 + 62, 2), -31))
+
+    return provider
+
+
 def _split_inputs(dt):
     def f(m):
         g = lambda t: mval(m, t)  # noqa: E731
@@ -1052,18 +1212,15 @@ def _split_inputs(dt):
 
 def replay_split(d):
     """Real propagateTo on real JulianDate/ScenarioTime and a real clock: one call to b versus a call to a followed by a call to b."""
-    from resonaate.physics.time.stardate import JulianDate, ScenarioTime
+    from resonaate.physics.time.stardate import JulianDate, ScenarioTime, julianDateToDatetime
     from resonaate.scenario.clock import ScenarioClock
-    from resonaate.scenario.scenario import Scenario
 
     def world():
         clock = object.__new__(ScenarioClock)
         clock.julian_date_start = JulianDate(d["jd_start"])
+        clock.datetime_start = julianDateToDatetime(clock.julian_date_start)
         clock.dt_step, clock.time, clock.initial_time = ScenarioTime(d["dt"]), ScenarioTime(0.0), ScenarioTime(0)
-        sc = object.__new__(Scenario)
-        sc.clock = clock
-        sc.logger = types.SimpleNamespace(info=lambda *a, **k: None, error=lambda *a, **k: None)
-        sc.scenario_config = types.SimpleNamespace(propagation=types.SimpleNamespace(truth_simulation_only=True), time=types.SimpleNamespace(physics_step_sec=d["dt"], output_step_sec=d["dt"]))
+        sc, log = _constructed_scenario(clock, d["dt"])
         calls = []
 
         def step():
@@ -1071,7 +1228,7 @@ def replay_split(d):
             clock.ticToc()
             calls.append((t0, float(clock.time)))
 
-        sc.stepForward, sc.saveDatabaseOutput = step, lambda: None
+        sc.stepForward = step
         return sc, calls
 
     out = {}
@@ -1096,6 +1253,12 @@ def _split_setup(ns, dt, max_total=None):
     from symx import fp
     from symx.core import assume, integer
 
+    from symx.dtmodel import SDateTime
+
+    # the clock's calendar start: any whole second of 1901..2099 (not tied to js: a superset of the consistent pairs)
+    n0, sod0 = integer("start_day"), integer("start_second")
+    assume(n0.t >= 0, n0.t <= 72683 - 62, sod0.t >= 0, sod0.t <= 86399)
+    ns.start_datetime = SDateTime._of(n0.t, sod0.t)
     js = ns.JulianDate(fp.fresh_float("js", Fraction(4830041, 2), Fraction(4976837, 2), -31))
     ja = ns.JulianDate(fp.fresh_float("ja", Fraction(4830041, 2), Fraction(4976837 + 62, 2), -31))
     jb = ns.JulianDate(fp.fresh_float("jb", Fraction(4830041, 2), Fraction(4976837 + 62, 2), -31))
@@ -1132,7 +1295,8 @@ def o_split_count(rep, dt):
         return None, None
 
     def run():
-        with time_env([("resonaate.scenario.scenario", {"around": fp.fp_around, "int": fp.fp_int}), ("resonaate.scenario.clock", {})]) as ns:
+        with time_env([("resonaate.scenario.scenario", _ROUNDING), ("resonaate.scenario.clock", {})]) as ns, \
+                shadow(SC, datetimeToJulianDate=_any_julian_date(ns)):
             js, ja, jb, ka, db = _split_setup(ns, dt)
             n_direct, e1 = count(*_bare_scenario(ns, dt, fp.from_int(z3.IntVal(0), 0, 0), js), jb)
             n_a, e2 = count(*_bare_scenario(ns, dt, fp.from_int(z3.IntVal(0), 0, 0), js), ja)
@@ -1182,11 +1346,12 @@ def o_split_count(rep, dt):
 
 def o_split_loop(rep, dt):
     """The loops themselves, unrolled (<= 3 steps in total): the split run calls stepForward at exactly the same clock epochs as the single run."""
-    from symx import fp
+    from resonaate.scenario import scenario as SC
     from symx.timeenv import time_env
 
     def run():
-        with time_env([("resonaate.scenario.scenario", {"around": fp.fp_around, "int": fp.fp_int}), ("resonaate.scenario.clock", {})]) as ns:
+        with time_env([("resonaate.scenario.scenario", _ROUNDING), ("resonaate.scenario.clock", {})]) as ns, \
+                shadow(SC, datetimeToJulianDate=_any_julian_date(ns)):
             js, ja, jb, ka, db = _split_setup(ns, dt, max_total=3)
             zero = lambda: fp.from_int(z3.IntVal(0), 0, 0)  # noqa: E731
             raised = None
@@ -1237,6 +1402,10 @@ EXPECT = {
     "steps2-sensor": ({"tso": 2, "orders": 4, "events": 4, "legs": 2, "out": 2, "kinds": PIPE}, ("quick", "thorough")),
     "steps2-sensors3": ({"tso": 2, "orders": 36, "kinds": PIPE}, ("quick", "thorough")),
     "steps2-targets": ({"agents": 2, "orders": 36, "events": 4}, ("quick", "thorough")),
+    "split2-offgrid": ({}, ("quick", "thorough")),
+    "steps3-cadence": ({"legs": 4, "events": 3, "out": 6}, ("quick", "thorough")),
+    "split3-offgrid": ({"legs": 4, "events": 2}, ("quick", "thorough")),
+    "split2-offgrid-sensor": ({"tso": 2, "out": 2, "events": 2, "orders": 4, "kinds": PIPE}, ("thorough",)),
     "step1-4agents": ({"tso": 2, "agents": 8, "orders": 300, "kinds": PIPE}, ("thorough",)),
     "steps2-sensors-all": ({"tso": 2, "agents": 2, "orders": 36, "events": 4, "legs": 2, "out": 2}, ("thorough",)),
     "steps2-targets-all": ({"agents": 2, "orders": 36, "events": 8, "legs": 2, "out": 2}, ("thorough",)),
@@ -1344,6 +1513,133 @@ def o_add_config(rep):
                       replay=replay_add, sample="agents added at run time get truth dynamics of the configured truth model; the propagation settings are not modified by adding agents")
 
 
+# ------------------------------------------------------------------------------------------------
+# output cadence and the step grid: two scenarios that differ only in output_step_sec integrate truth on the same grid
+# ------------------------------------------------------------------------------------------------
+CAD_START, CAD_STOP = _dt.datetime(2021, 3, 30, 16, 0, 0), _dt.datetime(2021, 3, 30, 17, 0, 0)
+CAD_MAX_OUT = 86400
+
+
+def _clock_request(cfg):
+    """What the real ScenarioClock.fromConfig asks the clock constructor for: (start, time span, step)."""
+    from resonaate.scenario import clock as CK
+
+    got = []
+
+    class RecClock(CK.ScenarioClock):
+        def __init__(self, start_date, time_span, dt_step):
+            got.append((start_date, time_span, dt_step))
+
+    RecClock.fromConfig(cfg)
+    return got[0]
+
+
+def _scenario_step(cfg):
+    """The step propagateTo advances by: the real Scenario.physics_time_step of a scenario holding this time configuration."""
+    from resonaate.scenario import scenario as SC
+
+    sc = object.__new__(SC.Scenario)
+    sc.scenario_config = Duck(time=cfg)
+    return sc.physics_time_step
+
+
+def replay_cadence(d):
+    """The real pydantic TimeConfig and the real ScenarioClock (constructor included) for two output cadences."""
+    from resonaate.scenario import clock as CK
+    from resonaate.scenario.config.time_config import TimeConfig
+
+    out = {}
+    seen = []
+    db = types.SimpleNamespace(insertData=lambda *rows: None)
+    for key in ("output_1", "output_2"):
+        try:
+            cfg = TimeConfig(start_timestamp=CAD_START, stop_timestamp=CAD_STOP, physics_step_sec=d["physics"], output_step_sec=d[key])
+        except ValueError as e:  # a rejected configuration runs no scenario at all
+            return False, {"rejected": key, "error": repr(e)[:300]}
+        with shadow(CK, getDBConnection=lambda: db):
+            clock = CK.ScenarioClock.fromConfig(cfg)
+        epochs = []
+        for _ in range(4):
+            clock.ticToc()
+            epochs.append(float(clock.time))
+        out[key] = {"output_step_sec": d[key], "physics_step_sec": cfg.physics_step_sec, "clock_dt_step": float(clock.dt_step), "time_span": float(clock.time_span),
+                    "start": cfg.start_timestamp.isoformat(), "first_epochs": epochs, "scenario_physics_time_step": float(_scenario_step(cfg))}
+        seen.append((cfg.physics_step_sec, float(clock.dt_step), float(clock.time_span), cfg.start_timestamp, cfg.stop_timestamp, tuple(epochs), float(_scenario_step(cfg))))
+    return seen[0] != seen[1], out
+
+
+def o_cadence_config(rep, physics):
+    """TimeConfig validation + ScenarioClock.fromConfig for a given physics step and two symbolic output cadences."""
+    from resonaate.scenario.config import time_config as TC
+    from symx.core import assume, integer
+    from symx.ext_c10 import field_preconditions, math_functions_on_proxies, run_validators
+
+    def run():
+        o1, o2 = integer("output_1"), integer("output_2")
+        assume(o1.t <= CAD_MAX_OUT, o2.t <= CAD_MAX_OUT)
+        made = []
+        with shadow(TC, **math_functions_on_proxies(TC)):
+            for o in (o1, o2):
+                vals = dict(start_timestamp=CAD_START, stop_timestamp=CAD_STOP, physics_step_sec=physics, output_step_sec=o)
+                assume(*field_preconditions(TC.TimeConfig, vals))
+                try:
+                    cfg = run_validators(TC.TimeConfig, vals)
+                except ValueError as e:
+                    return o1, o2, None, repr(e)
+                made.append((cfg.physics_step_sec, cfg.start_timestamp, cfg.stop_timestamp, _clock_request(cfg), _scenario_step(cfg)))
+        return o1, o2, made, None
+
+    res = explore(run, max_paths=400, max_depth=200, catch=(Exception,))
+    accepted = 0
+    regions = {"assumptions": lambda o1, o2: [], "non-multiple cadence": lambda o1, o2: [o1.t % physics == 0, o2.t % physics != 0, o2.t > physics],
+               "cadence shorter than the step": lambda o1, o2: [o1.t == physics, o2.t < physics]}
+    reached = set()
+    for k, r in enumerate(res):
+        if r.exc is not None:
+            rep.error(f"exception[physics={physics}]#{k}", repr(r.exc))
+            continue
+        o1, o2, made, rejected = r.out
+        if rejected is not None:
+            rep.note(f"physics={physics} path {k}: configuration rejected by validation ({rejected[:80]}): no scenario, nothing to relate")
+            continue
+        accepted += 1
+        (p1, s1, e1, c1, q1), (p2, s2, e2, c2, q2) = made
+        ck = Checks()
+        ck.add("physics_step_sec after validation depends on the output cadence", _same_i(p1, p2))
+        ck.add("start/stop after validation depend on the output cadence", [s1 == s2, e1 == e2])
+        ck.add("clock start depends on the output cadence", c1[0] == c2[0])
+        ck.add("clock time span depends on the output cadence", _same_i(c1[1], c2[1]))
+        ck.add("clock step depends on the output cadence", _same_i(c1[2], c2[2]))
+        ck.add("Scenario.physics_time_step depends on the output cadence", _same_i(q1, q2))
+        for what, region in regions.items():
+            # vacuity guards: each interesting class of cadence pairs lies on some accepted path
+            if what not in reached and solve(r.constraints + region(o1, o2), 20000).status == "sat":
+                reached.add(what)
+                rep.reachable(f"cadence-config[physics={physics}]:{what}", r.constraints + region(o1, o2))
+        if len(rep.violations) >= MAX_VIOLATIONS:
+            continue
+        rep.prove(f"cadence-config[physics={physics}]#{k}", ck.goal(), r.constraints,
+                  inputs=lambda m, o1=o1, o2=o2: {"physics": physics, "output_1": mval(m, o1.t), "output_2": mval(m, o2.t)}, replay=replay_cadence,
+                  sample=f"physics_step_sec={physics}: for all output cadences o1, o2 in 2..{CAD_MAX_OUT} the validated physics step, time span and the clock's step are the same")
+    if not accepted:
+        rep.error(f"reach[physics={physics}]", "no path on which both configurations are accepted")
+    for what in regions:
+        if accepted and what not in reached:
+            rep.note(f"physics={physics}: no accepted path with: {what} (such configurations are rejected by validation)")
+
+
+def _same_i(a, b):
+    """Equality of two integers/durations that may be proxies."""
+    ta, tb = getattr(a, "t", None), getattr(b, "t", None)
+    if ta is None and tb is None:
+        return bool(a == b)
+    ta = ta if ta is not None else (z3.IntVal(int(a)) if float(a) == int(a) else rv(a))
+    tb = tb if tb is not None else (z3.IntVal(int(b)) if float(b) == int(b) else rv(b))
+    if ta.sort() != tb.sort():
+        ta, tb = (z3.ToReal(ta) if ta.sort() == z3.IntSort() else ta), (z3.ToReal(tb) if tb.sort() == z3.IntSort() else tb)
+    return True if ta.eq(tb) else ta == tb
+
+
 def obligations(tier):
     obs = []
     for fam, (expect, tiers) in EXPECT.items():
@@ -1354,6 +1650,10 @@ def obligations(tier):
         REPLAYS[name] = replay_family
     obs.append(Ob("add-config", o_add_config, "run-time additions do not change the truth propagation settings", 300))
     REPLAYS["add-config"] = replay_add
+    for ph in ((60, 300) if tier == "quick" else (2, 7, 45, 60, 300, 3080)):
+        obs.append(Ob(f"cadence-config-physics{ph}", (lambda ph: lambda rep: o_cadence_config(rep, ph))(ph),
+                      f"physics_step_sec={ph}: the validated time configuration and the clock built from it do not depend on output_step_sec", 300))
+        REPLAYS[f"cadence-config-physics{ph}"] = replay_cadence
     for dt in ((60, 300) if tier == "quick" else (1, 7, 60, 300, 3080)):
         obs.append(Ob(f"split-count-dt{dt}", (lambda dt: lambda rep: o_split_count(rep, dt))(dt), f"split run requests the same number of steps as the single run, dt={dt}", 880))
         REPLAYS[f"split-count-dt{dt}"] = replay_split
